@@ -117,6 +117,16 @@ def _do_op(obj, op):
     if k == "addProps":
         props = _inst("props", op["props"]) if op.get("inst") else op["props"]
         return add_or_update_props_metadata(obj, props, op["ctype"])
+    if k == "minmax":
+        import numpy as np
+        from geff_spec.utils import compute_and_add_axis_min_max
+
+        node_props = {}
+        for name, p in op["props"].items():
+            vals = np.asarray(p["values"], dtype=p.get("dtype", "float64"))
+            miss = None if p.get("missing") is None else np.asarray(p["missing"], dtype=bool)
+            node_props[name] = {"values": vals, "missing": miss}
+        return compute_and_add_axis_min_max(obj, node_props)
     raise ValueError(f"unknown op {k}")
 
 
@@ -237,6 +247,8 @@ def model_request(case):
             ops.append(o)
         elif k == "addProps":
             ops.append({"k": k, "props": [mc.enc(p) for p in op["props"]], "ctype": op["ctype"]})
+        else:
+            ops.append({"k": "copy"})  # not modelled (compute_and_add_axis_min_max): such histories are judged by the specification only
     return {"op": "run", "env": mc.make_env(case), "init": mi, "ops": ops}
 
 
@@ -345,6 +357,66 @@ def single_op_cases():
     return out
 
 
+def minmax_props(rng, names, n=None, mask=None, junk=None, dtype=None):
+    """node property columns for compute_and_add_axis_min_max: per axis a value column and a missing mask
+    (none / some / all entries missing) whose masked entries hold junk placeholders (extreme, NaN, inf)"""
+    props = {}
+    n = rng.choice([0, 1, 3, 5]) if n is None else n
+    for name in names:
+        dt = dtype or rng.choice(["float64", "float64", "int64"])
+        mk = mask or rng.choice(["none", "none", "some", "some", "all"])
+        jk = junk or rng.choice(["extreme", "extreme", "nan", "inf", "same"])
+        if dt == "int64":
+            vals = [rng.randint(-20, 20) for _ in range(n)]
+        else:
+            vals = [rng.choice([0.0, 0.5, -1.5, 3.0, 7.25, -4.0, 10.0, 2.0 ** 40, -0.0, 1e-3]) for _ in range(n)]
+        if mk == "none" or n == 0:
+            miss = None if (mk == "none" or rng.random() < 0.5) else [False] * n
+            if mk == "none" and dt != "int64" and n and jk in ("nan", "inf") and rng.random() < 0.3:
+                vals[rng.randrange(n)] = mc.NAN if jk == "nan" else rng.choice([mc.INF, -mc.INF])  # a *present* non-finite value
+        else:
+            miss = [True] * n if mk == "all" else [rng.random() < 0.5 for _ in range(n)]
+            if mk == "some" and n and all(miss):
+                miss[0] = False
+            for i in range(n):
+                if miss[i]:
+                    if dt == "int64":
+                        vals[i] = rng.choice([10 ** 6 + i, -(10 ** 6) - i, 99 - 7 * i]) if jk != "same" else 0
+                    else:
+                        vals[i] = {"extreme": rng.choice([1e300 - i, -1e300 + i, 1e6 * (i + 1), -1e6 * (i + 2)]), "nan": mc.NAN,
+                                   "inf": rng.choice([mc.INF, -mc.INF]), "same": 0.0}[jk]
+        props[name] = {"values": vals, "dtype": dt, "missing": miss}
+    return props
+
+
+def minmax_cases(rng):
+    """compute_and_add_axis_min_max on the bases that declare axes: masks none / some / all x placeholder
+    kinds x dtypes x empty and non-empty graphs; also a missing column and descending placeholders"""
+    out = []
+    for base in mc.base_docs():
+        names = [a["name"] for a in (base.get("axes") or [])]
+        for mask in ("none", "some", "all"):
+            for junk in ("extreme", "nan", "inf", "same"):
+                for dtype in ("float64", "int64"):
+                    for n in (0, 1, 3):
+                        if not names and (mask, junk, dtype, n) != ("none", "extreme", "float64", 3):
+                            continue
+                        out.append({"init": {"k": "parse", "doc": base, "via": "validate"},
+                                    "ops": [{"k": "minmax", "props": minmax_props(rng, names, n, mask, junk, dtype)}],
+                                    "tag": "helper", "gray": True})
+        if names:
+            # the all-missing column with *descending* placeholders, and a column that is absent
+            out.append({"init": {"k": "parse", "doc": base, "via": "validate"},
+                        "ops": [{"k": "minmax", "props": {nm: {"values": [5.0, 1.0, 3.0], "dtype": "float64", "missing": [True, True, True]}
+                                                          for nm in names}}], "tag": "helper", "gray": True})
+            out.append({"init": {"k": "parse", "doc": base, "via": "validate"},
+                        "ops": [{"k": "minmax", "props": {nm: {"values": [5, 1, 3], "dtype": "int64", "missing": [True, False, True]}
+                                                          for nm in names}}], "tag": "helper", "gray": True})
+            out.append({"init": {"k": "parse", "doc": base, "via": "validate"},
+                        "ops": [{"k": "minmax", "props": minmax_props(rng, names[1:], 3)}], "tag": "helper", "gray": True})
+    return out
+
+
 def _json_safe(v):
     try:
         json.dumps(v)
@@ -366,6 +438,8 @@ def random_history(rng, cat, nops):
         doc = {"directed": rng.random() < 0.5, "axes": mc.gen_axes(rng) if rng.random() < 0.7 else None,
                "node_props_metadata": {}, "edge_props_metadata": {}}
         init = {"k": "create", "directed": doc["directed"], "axes": doc["axes"], "inst": rng.random() < 0.5}
+    if init["k"] != "create" and rng.random() < 0.04:
+        doc[rng.choice(["node_props_metadata", "edge_props_metadata"])] = mc.gen_props_permuted(rng)
     names = [a["name"] for a in doc["axes"]] if doc.get("axes") is not None else None
     h = doc.get("display_hints")
     hinted = {v for v in h.values() if v is not None} if h else set()
@@ -373,7 +447,7 @@ def random_history(rng, cat, nops):
     for _ in range(nops):
         r = rng.random()
         invalid = rng.random() < 0.25
-        if r < 0.55:
+        if r < 0.53:
             f = rng.choice(mc.FIELD_NAMES)
             if f == "axes" and not invalid:
                 if rng.random() < 0.2:
@@ -397,6 +471,8 @@ def random_history(rng, cat, nops):
                 hinted = {x for x in v.values() if x is not None} if v else set()
             elif f in ("node_props_metadata", "edge_props_metadata") and not invalid:
                 v = mc.gen_props(rng)
+            elif f in ("node_props_metadata", "edge_props_metadata") and rng.random() < 0.5:
+                v = mc.gen_props_permuted(rng)
             elif f == "extra" and not invalid:
                 v = mc.gen_extra(rng)
             else:
@@ -412,6 +488,10 @@ def random_history(rng, cat, nops):
                     except Exception:  # noqa: BLE001
                         pass
             ops.append({"k": "assign", "f": f, "v": v, "inst": rng.random() < 0.5})
+        elif r < 0.59:
+            # compute_and_add_axis_min_max over the (shadowed) declared axes; not modelled -> specification only
+            ops.append({"k": "minmax", "props": minmax_props(rng, names if names is not None else rng.sample(mc.NAMES, 2))})
+            gray = True
         elif r < 0.65:
             ops.append({"k": "copy", "how": rng.choice(["model_copy", "deepcopy", "model_copy_deep", "copy_copy", "pickle"])})
         elif r < 0.78:
@@ -572,11 +652,13 @@ def run(ck: common.Check):
     lim = mc.CorrLimiter(ck)
     ck.rule = ("cases = corpus + every catalogue value (valid / invalid / context-dependent) assigned to its field on 12 "
                "base objects and given at construction through kwargs, model_validate, model_validate_json and zarr v2/v3 "
-               "attributes + a helper catalogue on every base + seeded random histories of <= 8 operations (mostly valid, "
+               "attributes + a helper catalogue on every base (incl. compute_and_add_axis_min_max with masks none/some/all and junk "
+               "placeholders) + seeded random histories of <= 8 operations (mostly valid, "
                "25% invalid values); non-trivial = at least one operation or a rejected construction; distinct = distinct "
                "canonical JSON of the history")
     cases = list(corpus())
     cases += single_op_cases()
+    cases += minmax_cases(ck.rng)
     cat = mc.catalogue()
     nrand = 2500 if ck.quick else 30000
     for _ in range(nrand):
@@ -615,7 +697,8 @@ def run(ck: common.Check):
                     lim.corr_broken("C07:lean-spec-on-observed-dump(decode)", cases[idx], o["viol"], sv)
                 continue
             n_s += 1
-            if sv["viol"] != o["viol"] or mc.canon(sv["redump"]) != o["dump"]:
+            # (histories through the unmodelled helper may carry Python ints in float fields: verdict only)
+            if sv["viol"] != o["viol"] or (not cases[idx].get("gray") and mc.canon(sv["redump"]) != o["dump"]):
                 lim.corr_broken("C07:lean-spec-on-observed-dump", cases[idx], {"viol": o["viol"]}, {"viol": sv["viol"]})
         ck.extra["lean_spec_evaluations_on_observed_dumps"] = n_s
     nsteps = 0
